@@ -201,7 +201,8 @@ def _cn(n):
 
 KNOWN_CLASSES["tagonly_decl_with_quals"] = ast_class(lambda n: _cn(n) == "Decl" and n.name is None and n.quals and _cn(n.type) in ("Struct", "Union", "Enum"))
 KNOWN_CLASSES["int_const_member"] = ast_class(lambda n: _cn(n) == "StructRef" and n.type == "." and _cn(n.name) == "Constant" and "int" in n.name.type)
-KNOWN_CLASSES["forinit_multi"] = ast_class(lambda n: _cn(n) == "For" and _cn(n.init) == "DeclList" and len(n.init.decls) > 1)
+# only the shape that fails: a later declarator that has pointer / array / function derivations (they are dropped)
+KNOWN_CLASSES["forinit_multi"] = ast_class(lambda n: _cn(n) == "For" and _cn(n.init) == "DeclList" and any(_cn(d.type) != "TypeDecl" for d in n.init.decls[1:]))
 KNOWN_CLASSES["static_assert_low_prec"] = ast_class(lambda n: _cn(n) == "StaticAssert" and _cn(n.cond) == "Assignment")
 KNOWN_CLASSES["assign_lvalue_low_prec"] = ast_class(lambda n: _cn(n) == "Assignment" and _cn(n.lvalue) in ("ExprList", "TernaryOp", "Assignment"))
 KNOWN_CLASSES["multi_alignas"] = ast_class(lambda n: _cn(n) == "Decl" and isinstance(n.align, list) and len(n.align) > 1)
